@@ -154,7 +154,12 @@ func vwapiTimed(f func() string) string {
 	case s := <-done:
 		return s
 	case <-time.After(vwapiWait):
-		return ""
+		select { // see withTimeout: a held-up process makes both ready at once
+		case s := <-done:
+			return s
+		case <-time.After(5 * time.Second):
+			return ""
+		}
 	}
 }
 
